@@ -70,6 +70,10 @@ OTHER_CHECKS = [
      "Entities.tla models the entity tree with one action per public create/delete/use call; TLC enumerates all histories of <= 5 operations over 3 publishers, 2 subscribers, a topic, a writer and a reader, and every transition is replayed through the async API on a participant whose 8-bit publisher/subscriber counters were first advanced to 254, so that the counter wraps inside every replayed history: after every operation all simultaneously existing entities must have distinct instance handles, the call must return (a panic or stall of the worker is a violation) and give the specified result.",
      "5.8, 6 C35", GRAPH_NOTE + " The 16-bit topic/reader/writer counters are not warmed to their wrap (65 536 creations per replay is too slow); RTPS GUIDs are not compared separately (the handle of these entities is their GUID).",
      "explicit TLA+ spec + TLC; every transition replayed through the public API in the deterministic simulation after counter warm-up"),
+    ("C08", "model_checking",
+     "Wire.tla: abstract RTPS messages (header + submessages as records; 64 bit values named; sets as base + offsets) with EncLen, the octetsToNextHeader of every submessage kind as a function of its fields (bitmap words, inline QoS parameters with padding and sentinel, payload length), LenField (0 for a last submessage above 65535 octets) and the total message length. TLC enumerates every submessage kind with at most two fields off the default (sequence numbers up to 2^63-1, set offsets {}, {0}, {31}, {32}, {255}, ..., counts, flags, entity ids, inline QoS variants, payloads of 0..200 000 octets), alone, in front of a HEARTBEAT and behind an INFO_TS (3 7xx messages). For each the harness lets the library encode the message, compares every length field and the total with the specification, compares the bytes with an independent encoder, and decodes the library's bytes and the independent little- and big-endian encodings with the library, comparing every field with the abstract message.",
+     "5.11, 6 C08", "Trusted: TLC, the independent encoder and the name->number mapping in harness/src/wire.rs. INFO_REPLY / PAD / vendor submessages only as received messages (C06).",
+     "explicit TLA+ spec of the message structure and encoded lengths; TLC-enumerated messages encoded/decoded by the library and compared with the specification and an independent encoder"),
     ("C14", "model_checking",
      "TimeConv.tla defines the wire conversion (fraction = ceil(ns*2^32/10^9) by long division on 16-bit limbs, back by Horner's rule, so that TLC's 32-bit integers suffice) and the saturating Add / Sub / New on normalized (sec, ns) values; TLC evaluates them on 31 413 boundary and sampled cases, checks RoundTrip, Normalized and Monotone on them and prints one CASE line per evaluation; the harness evaluates every conversion path (Duration<->rtps Duration, Duration<->wire Time, Time<->transport Time<->wire Time) and every operator (Time+Duration, Duration+-Duration, Time-Time, +=, ::new) of the code on each case, and sweeps ALL 10^9 nanosecond values through the code comparing with TimeConv!Frac and the round trip. TimeConvA.tla states the same functions on unbounded integers and Apalache proves RoundTripInv for every ns and ArithInv (normalized, monotone in every argument) for all operands of the full range.",
      "6 C14", "Trusted: TLC, Apalache/z3, the harness' case evaluation (harness/src/timeconv.rs). The limb definition (TLC) and the integer definition (Apalache) are linked through the implementation, not by a proof. Seconds are sampled at boundary values (they are copied by the conversions).",
